@@ -265,6 +265,7 @@ Proof.
   - destruct (c_direct c); cbn [fst]; [lia|]. unfold smem. cbn [cs w_cs]. rewrite c_set_archive_spec.
     destruct (is_null (swp (cs s))); cbn [mem]; lia.
   - destruct (c_direct c); cbn [fst]; [lia|]. unfold smem; cbn [cs w_cs c_with_arch mem]; lia.
+  - cbn [fst]. rewrite smem_w_mem. cbn. apply size_nonneg.
 Qed.
 
 (* histories without a bulk load: a cache that starts within its bound never exceeds maxsize *)
